@@ -67,7 +67,7 @@ func verifSameKey(label string, s *keygen.LocalPartySaveData, sn *verifKeySnap) 
 
 // one signing session of all n parties over the given key data; returns the signatures and
 // the first coin each party drew (its nonce share r_i)
-func verifSession20(tag string, saves []keygen.LocalPartySaveData, keys []*big.Int, t int, m *big.Int) ([]*common.SignatureData, []*big.Int, bool) {
+func verifSession20(tag string, saves []keygen.LocalPartySaveData, keys []*big.Int, t int, m *big.Int, afterStart func()) ([]*common.SignatureData, []*big.Int, bool) {
 	ec := tss.Edwards()
 	n := len(saves)
 	ids := make(tss.UnSortedPartyIDs, n)
@@ -95,6 +95,9 @@ func verifSession20(tag string, saves []keygen.LocalPartySaveData, keys []*big.I
 		if parties[i].Start() != nil {
 			return nil, nil, false
 		}
+	}
+	if afterStart != nil {
+		afterStart() // the key data right after round 1 (the path condition is still small here)
 	}
 	hook := func(msg tss.Message, to *tss.PartyID) tss.ParsedMessage {
 		pm := net.Parse(msg)
@@ -134,7 +137,11 @@ func VerifHarness_C20_eddsa_two_sessions_n2t1() {
 	m := v.NondetNat("m")
 	v.Assume("message-fits", v.LtInt(m, new(big.Int).Lsh(big.NewInt(1), 256)))
 	m0 := new(big.Int).Set(m)
-	sig1, r1, ok := verifSession20("s1rand", saves, keys, 1, m)
+	sig1, r1, ok := verifSession20("s1rand", saves, keys, 1, m, func() {
+		for i := range saves {
+			verifSameKey("key-data-unchanged-after-round-1", &saves[i], snaps[i])
+		}
+	})
 	v.Assert("first-session-completes", ok)
 	if !ok {
 		return
@@ -143,7 +150,7 @@ func VerifHarness_C20_eddsa_two_sessions_n2t1() {
 		verifSameKey("key-data-unchanged-after-session-1", &saves[i], snaps[i])
 	}
 	v.Assert("message-unchanged", v.EqInt(m, m0))
-	sig2, r2, ok := verifSession20("s2rand", saves, keys, 1, m)
+	sig2, r2, ok := verifSession20("s2rand", saves, keys, 1, m, nil)
 	v.Assert("second-session-completes", ok)
 	if !ok {
 		return
